@@ -31,7 +31,7 @@ FUNCS = ['fol.Context.add_expr', 'fol.Context.declare', 'fol.Context._avoid_rede
          'temporal.Automaton._fetch_expr', 'symbolic.bdd.add_expr', 'symbolic.bdd_iterative.add_expr',
          'orthotopes.setup_aux_vars', 'gr1.make_streett_transducer']
 SOLVER_MS = 60000
-OPS = 'ADQSPRGCTVIBOW'     # operation alphabet of the histories
+OPS = 'ADQSPRGCTVIBOWN'     # operation alphabet of the histories
 DECL = dict(x=(0, 5), y=(-3, 2), b='bool')
 
 
@@ -313,6 +313,23 @@ class History:
                 aut.action[k] = s
                 u = aut.action[k]
             self.tracked.append((f'label {k} = {s}', u, self.export(u)))
+        elif op == 'N':
+            # a BDD obtained earlier (or a constant) mentioned by its node reference inside a later formula
+            cands = list(self.tracked) + [('FALSE', aut.false, z3.BoolVal(False)), ('TRUE', aut.true, z3.BoolVal(True))]
+            label, u, term = rnd.choice(cands) if rnd.random() < 0.6 else rnd.choice(cands[-2:])
+            s = self.formula()
+            t2 = self.export(aut.add_expr(s))
+            kind = rnd.choice(['or', 'and', 'not', 'implies'])
+            if kind == 'or':
+                e, want = rf'{u} \/ ({s})', z3.Or(term, t2)
+            elif kind == 'and':
+                e, want = rf'({s}) /\ {u}', z3.And(t2, term)
+            elif kind == 'not':
+                e, want = rf'~ {u}', z3.Not(term)
+            else:
+                e, want = rf'{u} => ({s})', z3.Implies(term, t2)
+            w = aut.add_expr(e)
+            self.tracked.append((f'{kind} mentioning the node of ({label}) as {e[:40]!r}', w, want))
         elif op == 'W':
             # attempt to re-declare an existing variable with a different hint: either refused (ValueError,
             # nothing changes) or, if the call returns, the new hint is the one the context reports
